@@ -119,13 +119,14 @@ func sprint(sb *strings.Builder, rv reflect.Value, depth int) {
 		sb.WriteByte(']')
 	case reflect.Map:
 		sb.WriteString("map[")
-		for i, k := range SortedMapKeys(rv) {
+		keys, elems := SortedMapEntries(rv)
+		for i, k := range keys {
 			if i > 0 {
 				sb.WriteByte(' ')
 			}
 			sprint(sb, k, depth+1)
 			sb.WriteByte(':')
-			sprint(sb, rv.MapIndex(k), depth+1)
+			sprint(sb, elems[i], depth+1)
 		}
 		sb.WriteByte(']')
 	case reflect.Struct:
